@@ -24,6 +24,10 @@ func init() {
 		NotDecided: "Exactness of ipaddr.Summarize (third-party arithmetic), label-selector semantics, that cidrContainsCIDR is a correct containment test as values.",
 		Run:        runC08,
 		Mutants: []Mutant{
+			{Name: "aggregation-length-one-family-enough", File: "internal/config/config.go",
+				Old: "\tif adv.AggregationLength != newAdv.AggregationLength && !hasV6 {", New: "\tif adv.AggregationLength != newAdv.AggregationLength {", Expect: "AGGR-DIFF"},
+			{Name: "unlabeled-pools-never-selected", File: "internal/config/config.go",
+				Old: "OUTER:\n\tfor _, pool := range pools {\n", New: "OUTER:\n\tfor _, pool := range pools {\n\t\tif len(pool.Labels) == 0 {\n\t\t\tcontinue\n\t\t}\n", Expect: "every-matching-pool"},
 			{Name: "duplicate-advertisement-ignores-nodes", File: "internal/config/config.go",
 				Old: "\t\tif !reflect.DeepEqual(adv.Nodes, toCheck.Nodes) {\n\t\t\tcontinue\n\t\t}\n", New: "", Expect: "ADV-DEDUP"},
 			{Name: "containment-direction-flipped", File: "internal/config/config.go",
@@ -57,6 +61,7 @@ func init() {
 }
 
 func runC08(p *chk.Prog, r *chk.Report) {
+	c08AggrDiff(p, r)
 	c08Dedup(p, r)
 	cidrContainmentRule(p, r)
 	c08Parse(p, r)
@@ -513,6 +518,38 @@ func c08Select(p *chk.Prog, r *chk.Report) {
 			x.Check("selectedPools:append", s.Pos(), g.Dominated(s, g.GPat(true, "S.Matches(L)", chk.H("L", definedBy(g, "labels.Set(P.Labels)", chk.H("P", same))))), "", "a pool is selected without a selector matching its labels")
 		}
 		x.Check("selectedPools:appends", sp.Pos(), n == 1, "", "unexpected shape")
+		// the converse: a pool that some selector matches is selected - a pool is passed over only after the selectors
+		// were tried on it, and a selector is passed over only when it does not match
+		apps := g.Find(sp.IsAssignPat("R", "append(R, P.Name)"))
+		for _, outer := range sp.RangeLoops(isParamIdx(sp, 0)) {
+			var inner *ast.RangeStmt
+			for _, rs := range sp.RangeLoops(chk.Any) {
+				if rs != outer && chk.InBody(outer, rs) {
+					inner = rs
+				}
+			}
+			if inner == nil || len(apps) != 1 {
+				x.Fail("selectedPools:every-matching-pool", outer.Pos(), "no loop over the selectors inside the loop over the pools")
+				continue
+			}
+			app := apps[0]
+			tried := chk.GEvent(func(n ast.Node) bool { return n == ast.Node(inner.X) || n == app.Top })
+			ok := true
+			for _, e := range g.LoopIteration(outer, tried) {
+				if !e.OK {
+					ok = false
+				}
+			}
+			pool := rangeVal(sp, outer)
+			noMatch := g.GPat(false, "S.Matches(L)", chk.H("S", rangeVal(sp, inner)), chk.H("L", definedBy(g, "labels.Set(P.Labels)", chk.H("P", pool))))
+			appended := chk.GEvent(func(n ast.Node) bool { return n == app.Top })
+			for _, e := range g.LoopIteration(inner, chk.GOr(noMatch, appended)) {
+				if !e.OK {
+					ok = false
+				}
+			}
+			x.Check("selectedPools:every-matching-pool", outer.Pos(), ok, "", "a pool whose labels a selector matches can be left out (a pool skipped before the selectors are tried, or a selector skipped although it matches): the advertisement is silently not attached to it")
+		}
 	}
 }
 
@@ -648,4 +685,71 @@ func c08MinMaskInPlace(f *chk.Fn, g *chk.Graph, e ast.Expr, grp func(ast.Expr) b
 		nInit++
 	}
 	return nInit == 1 && nLower == 1
+}
+
+// c08AggrDiff: two BGP advertisements never produce the same prefix on a pool exactly when their aggregation lengths
+// differ for every address family the pool has.
+func c08AggrDiff(p *chk.Prog, r *chk.Report) {
+	x := r.Rule("AGGR-DIFF", "B path (truth table)", "config.isAggrLengthDifferent(new, adv, pool) is true exactly when the pool has no addresses, or the aggregation lengths differ for every family present in the pool: (IPv4 lengths differ and no IPv6), (IPv6 lengths differ and no IPv4), or both differ; hasV4 / hasV6 are set from ipfamily.ForCIDR of the first network of each address group", 3)
+	f := need(x, p, cfgPkg, "", "isAggrLengthDifferent")
+	if f == nil {
+		return
+	}
+	g := f.Graph()
+	a, b, pool := isParamIdx(f, 0), isParamIdx(f, 1), isParamIdx(f, 2)
+	flag := func(fam string) types.Object {
+		var out types.Object
+		for _, rs := range f.RangeLoops(func(e ast.Expr) bool { return f.MatchWith("P.cidrsPerAddresses", e, chk.H("P", pool)) != nil }) {
+			grp := rangeVal(f, rs)
+			isFam := g.GPat(true, "F == V", chk.H("F", definedBy(g, "ipfamily.ForCIDR(G[0])", chk.H("G", grp))), chk.H("V", isObjNamed(f, "internal/ipfamily."+fam)))
+			for _, s := range g.Find(f.IsAssignPat("H", "true")) {
+				if chk.InBody(rs, s.Node) && g.Dominated(s, isFam) {
+					o := f.ObjOf(s.Node.(*ast.AssignStmt).Lhs[0])
+					// set whenever a group of that family is met, and only then
+					if !loopSkipsWithout(g, rs, func(n ast.Node) bool { return n == s.Top }, chk.GNot(isFam)) && len(assignsTo(f, o)) == 1 {
+						out = o
+					}
+				}
+			}
+		}
+		return out
+	}
+	h4o, h6o := flag("IPv4"), flag("IPv6")
+	x.Check("isAggrLengthDifferent:family-flags", f.Pos(), h4o != nil && h6o != nil && h4o != h6o, "", "the pool's address families are not determined from ipfamily.ForCIDR of each address group (one flag per family, set for every group of that family)")
+	if h4o == nil || h6o == nil {
+		return
+	}
+	has := func(o types.Object, v bool) chk.Guard { return chk.GBool(v, f.IsObj(o)) }
+	differ := func(field string) chk.Guard {
+		// one leaf for the comparison in either order and either polarity
+		return chk.GFunc(func(ft chk.Fact) bool {
+			for _, pat := range []string{"A." + field + " != B." + field, "B." + field + " != A." + field} {
+				if f.MatchWith(pat, ft.E, chk.H("A", a), chk.H("B", b)) != nil {
+					return ft.Val
+				}
+			}
+			for _, pat := range []string{"A." + field + " == B." + field, "B." + field + " == A." + field} {
+				if f.MatchWith(pat, ft.E, chk.H("A", a), chk.H("B", b)) != nil {
+					return !ft.Val
+				}
+			}
+			return false
+		})
+	}
+	d4, d6 := differ("AggregationLength"), differ("AggregationLengthV6")
+	spec := chk.GOr(
+		chk.GAnd(has(h4o, false), has(h6o, false)),
+		chk.GAnd(d4, has(h6o, false)),
+		chk.GAnd(d6, has(h4o, false)),
+		chk.GAnd(d4, d6))
+	why := g.BoolResultIs(spec)
+	x.Check("isAggrLengthDifferent:truth-table", f.Pos(), why == "", "", "two advertisements can be judged free of collisions although, for a family the pool has, their aggregation lengths are equal (the same prefix would be announced with two local preferences / community sets): "+why)
+	for _, rs := range f.RangeLoops(func(e ast.Expr) bool { return f.MatchWith("P.cidrsPerAddresses", e, chk.H("P", pool)) != nil }) {
+		// the only early exit of the scan is "both families seen"
+		for _, e := range g.LoopIteration(rs, chk.GAnd(has(h4o, true), has(h6o, true))) {
+			if e.Break && !e.OK {
+				x.Fail("isAggrLengthDifferent:scan-complete", rs.Pos(), "the scan over the pool's address groups can stop before both families were seen")
+			}
+		}
+	}
 }
